@@ -49,13 +49,23 @@ ANYQF = PRED2 + BOOL2 + ["inc", "copy", "sim", "const"]
 
 OPS = ["compile", "compile_fast", "bind", "bindl", "compose", "oraclize", "grover", "grover_el", "dj", "bv", "simon",
        "qasm", "qiskit", "gate", "sympy", "decompile", "decopt", "truth_table", "recompile", "logicfun", "repr",
-       "compose_with", "decompile_shared"]
+       "compose_with", "decompile_shared", "native"]
 
 
 def fp_circuit(qc):
     from .ser import circuit_ir
     return dict(n=qc.num_qubits, gates=[(k, tuple(w), p) for k, w, p in circuit_ir(qc.gates)],
                 gates_computed=len(qc.gates_computed), qmap=tuple(qc.qubit_map.items()), name=qc.name)
+
+
+def drawing(qc):
+    """What draw() of a circuit prints."""
+    import contextlib
+    import io
+    buf = io.StringIO()
+    with contextlib.redirect_stdout(buf):
+        qc.draw()
+    return buf.getvalue()
 
 
 def fp_qf(qf):
@@ -107,6 +117,17 @@ class World:
         self.qf = {}
         self.dec = None
         self.results = []
+        self.nat = None
+
+    def native(self):
+        """A circuit that carries a native drawing (what the tweedledum back end attaches)."""
+        from qlasskit.qcircuit import QCircuit
+        if self.nat is None:
+            self.nat = QCircuit(3, name="nat", native="NATIVE DRAWING")
+            self.nat.x(0)
+            self.nat.cx(0, 1)
+            self.nat.ccx(0, 1, 2)
+        return self.nat
 
     def get(self, key):
         from qlasskit import qlassf
@@ -176,6 +197,21 @@ class World:
             return fp_sections(r)
         if kind == "decopt":
             return fp_circuit(circuit_boolean_optimizer(self.get(key).circuit()))
+        if kind == "native":
+            qc = self.native()
+            if key == "draw":
+                return drawing(qc)
+            if key == "decompile":
+                return fp_sections(Decompiler().decompile(qc))
+            if key == "decopt":
+                return fp_circuit(circuit_boolean_optimizer(qc))
+            if key == "repeat":
+                return fp_circuit(qc.repeat(2))
+            if key == "copy":
+                return fp_circuit(qc.copy())
+            if key == "plus":
+                return fp_circuit(qc + qc)
+            raise ValueError(key)
         if kind == "truth_table":
             return [tuple(bool(x) for x in row) for row in self.get(key).truth_table()]
         if kind == "recompile":
@@ -193,6 +229,8 @@ class World:
         snap = dict(("qf:" + k, fp_qf(v) if type(v).__name__ != "UnboundQlassf" else fp_unbound(v)) for k, v in self.qf.items())
         for i, r in enumerate(self.results):
             snap[f"decompiled:{i}"] = fp_sections(r)
+        if self.nat is not None:
+            snap["native-circuit"] = dict(fp_circuit(self.nat), gates_computed=0, drawing=drawing(self.nat))
         snap["module"] = fp_module()
         return snap
 
@@ -230,6 +268,8 @@ def random_op(rng):
         return (kind, caller, rng.choice(SUBS[caller]))
     if kind == "decompile_shared":
         return (kind, rng.choice(ANYQF))
+    if kind == "native":
+        return (kind, rng.choice(["draw", "decompile", "decopt", "repeat", "copy", "plus"]))
     if kind == "gate":
         return (kind, rng.choice(["copy", "swap", "reset", "copy", "swap", "reset"] + ANYQF))
     return (kind, rng.choice(ANYQF + ["caller"]))
@@ -350,6 +390,8 @@ def fixed_histories():
          ("compose_with", "call_sub", "sub_ab")],
         [("compose_with", "call_subq", "subq_2"), ("compose_with", "call_subq", "subq_4"), ("compose_with", "call_subq", "subq_2")],
         [("decompile_shared", "eq2"), ("decompile_shared", "and"), ("decompile", "eq2"), ("decompile_shared", "eq2"), ("decopt", "and")],
+        [("native", "draw"), ("native", "decompile"), ("native", "draw"), ("native", "repeat"), ("native", "decopt"), ("native", "copy"),
+         ("native", "plus"), ("native", "draw")],
     ]
 
 
